@@ -185,8 +185,9 @@ func (r *rdbdriver) GetLocationByMap(ipnet *net.IPNet, mapID []byte, context Con
 	copy(fullKey, ipMapRangePointKeyElement)   // prefix, 4 bytes
 	copy(fullKey[4:], mapID)                   // mapID, 2 bytes
 	copy(fullKey[6:], ipnet.IP.To16())
-	reqMaskLen, _ := ipnet.Mask.Size()
-	if isIPv4(ipnet.IP) {
+	reqMaskLen, maskBits := ipnet.Mask.Size()
+	if isIPv4(ipnet.IP) && maskBits == 8*net.IPv4len {
+		// (an IPv4-mapped address with a 128-bit mask is already in 128-bit terms)
 		reqMaskLen += 128 - 32
 	}
 	copy(fullKey[6+16:], []byte{uint8(reqMaskLen)})
